@@ -361,6 +361,10 @@ func TestVerif_C27(t *testing.T) {
 					}
 				}
 			}, check)
+			// (shards overwrite each other's notes, so only the negative is recorded)
+			if !c.Replaying() && c.Expired() {
+				c.Note("part_"+part+"_cut_by_deadline_in_some_shard", true)
+			}
 		}
 		var smallS, bigS []c27Scn
 		for _, sc := range scns {
